@@ -530,6 +530,121 @@ def sx_sha1(data=b''):
     return _hashlib.sha1(data)
 
 
+# =============================================================================================
+# abstract zlib: an executable streaming codec that makes context synchronisation explicit (C06)
+# =============================================================================================
+ZMAGIC = 0xD7
+ZTAIL = [0x00, 0x00, 0xFF, 0xFF]
+
+
+class ZError(_zlib.error):
+    pass
+
+
+def _wb(x):
+    """window bits argument (-w): magnitude as int/SymInt"""
+    if isinstance(x, symdata.SymNegInt):
+        return x.mag
+    if isinstance(x, int):
+        return -x if x < 0 else x
+    raise EngineLimit('positive/unknown wbits for raw deflate: %r' % (x,))
+
+
+class AbstractCompress(object):
+    """compress(x)+flush(SYNC) = [MAGIC, wbits, gen, seq, len_hi, len_lo] ++ x ++ 00 00 ff ff
+    gen identifies this compressor object, seq counts the messages it has seen (its history)."""
+    _sx_accepts_symbolic = True
+    counter = [0]
+
+    def __init__(self, level, method, wbits, *a):
+        w = World.cur
+        st = w.notes.setdefault('zlib', dict(ngen=0, compress_calls=[]))
+        st['ngen'] += 1
+        self.gen = st['ngen']
+        self.seq = 0
+        self.wbits = _wb(wbits)
+        self.pending = None
+        st.setdefault('compressors', []).append(self)
+
+    def compress(self, data):
+        it = items_of(data)
+        n = len(it)
+        World.cur.notes['zlib']['compress_calls'].append((self.gen, self.seq, list(it)))
+        wb = self.wbits
+        if isinstance(wb, SymInt):
+            wb = SymInt(wb.at(8), 8) if wb.w <= 8 else SymInt(z3.Extract(7, 0, wb.e), 8)
+        if n >= 2 and symdata._concrete(it) and len(set(it)) == 1:
+            # a run: "compressible" payload, the output is shorter than the input (RLE form)
+            out = [ZMAGIC, wb, self.gen & 0xFF, self.seq & 0xFF, (n >> 8) | 0x80, n & 0xFF, it[0]]
+        else:
+            out = [ZMAGIC, wb, self.gen & 0xFF, self.seq & 0xFF, n >> 8, n & 0xFF] + it
+        self.seq += 1
+        return mk_bytes(out)
+
+    def flush(self, mode=None):
+        return bytes(ZTAIL)
+
+
+class AbstractDecompress(object):
+    """accepts, in order, exactly what ONE compressor produced since this object was created -- or any
+    message with seq == 0 (a fresh compressor needs no history).  Anything else: zlib.error."""
+    _sx_accepts_symbolic = True
+
+    def __init__(self, wbits, *a):
+        self.wbits = _wb(wbits)
+        self.buf = []
+        self.state = None          # (gen, next_seq) of the stream this object is in sync with
+        st = World.cur.notes.setdefault('zlib', dict(ngen=0, compress_calls=[]))
+        st.setdefault('decompressors', []).append(self)
+
+    def decompress(self, data, *a):
+        self.buf.extend(items_of(data))
+        out = []
+        while True:
+            b = self.buf
+            if len(b) < 6:
+                break
+            if not symdata.tb(symdata.eq_items([b[0]], [ZMAGIC])):
+                raise ZError('Error -3 while decompressing data: invalid block type (abstract codec)')
+            n = b[4] * 256 + b[5] if isinstance(b[4], int) and isinstance(b[5], int) else None
+            if n is None:
+                n = (SymInt.lift(b[4]) << 8 | b[5]).concretize()
+            rle = bool(n & 0x8000)
+            n &= 0x7FFF
+            run = n
+            if rle:
+                n = 1
+            if len(b) < 6 + n + 4:
+                break
+            w_msg, gen, seq = b[1], b[2], b[3]
+            if not symdata.tb(symdata.eq_items(b[6 + n:6 + n + 4], ZTAIL)):
+                raise ZError('Error -3 while decompressing data: invalid stored block lengths (abstract codec)')
+            # window: zlib cannot inflate a stream produced with a larger window
+            wm = SymInt.lift(w_msg) if not isinstance(w_msg, int) else w_msg
+            wd = self.wbits
+            if bool(wm > (wd if not (isinstance(wd, int) and wd == 8) else 9)):
+                raise ZError('Error -3 while decompressing data: invalid window size (abstract codec)')
+            seq_c = seq if isinstance(seq, int) else seq.concretize()
+            gen_c = gen if isinstance(gen, int) else gen.concretize()
+            if seq_c != 0 and self.state != (gen_c, seq_c):
+                raise ZError('Error -3 while decompressing data: invalid distance too far back (abstract codec: context out of sync)')
+            self.state = (gen_c, seq_c + 1)
+            out.extend(b[6:6 + n] * (run if rle else 1))
+            del b[:6 + n + 4]
+        return mk_bytes(out)
+
+
+class FakeZlibModule(object):
+    _sx_accepts_symbolic = True
+    Z_DEFAULT_COMPRESSION = _zlib.Z_DEFAULT_COMPRESSION
+    DEFLATED = _zlib.DEFLATED
+    Z_SYNC_FLUSH = _zlib.Z_SYNC_FLUSH
+    MAX_WBITS = _zlib.MAX_WBITS
+    error = _zlib.error
+    compressobj = AbstractCompress
+    decompressobj = AbstractDecompress
+
+
 class FakeMathModule(object):
     """math.ceil on a symbolic real (idealised): -floor(-x) via z3 ToInt"""
 
@@ -559,6 +674,7 @@ def install():
     R(_random.random, fake_random)
     import math as _math
     R(_math, FakeMathModule())
+    R(_zlib, FakeZlibModule)
     instrument.install()
     import logging
     logging.disable(logging.CRITICAL)
